@@ -245,10 +245,8 @@ Qed.
 
 Lemma pos_valid_WF (p:pos) : pos_valid p = true -> WFpos p.
 Proof.
-  unfold pos_valid. intro H.
-  repeat (apply andb_prop in H; destruct H as [H ?]).
-  repeat split.
-  - apply Nat.eqb_eq. assumption.
-  - match goal with K : (kings p White =? 1) = true |- _ => apply N.eqb_eq in K; lia end.
-  - match goal with K : (kings p Black =? 1) = true |- _ => apply N.eqb_eq in K; lia end.
+  unfold pos_valid. intro H. rewrite !andb_true_iff in H.
+  destruct H as [[[[[[[[[[[[[Hl Hkw] Hkb] _] _] _] _] _] _] _] _] _] _] _].
+  apply Nat.eqb_eq in Hl. apply N.eqb_eq in Hkw. apply N.eqb_eq in Hkb.
+  repeat split; [exact Hl|rewrite Hkw|rewrite Hkb]; apply N.le_refl.
 Qed.
